@@ -961,9 +961,9 @@ PROVIDES = {'_k_fit_gain': ('fitGain_',), '_k_fit_gain_offset': ('fitGainOffset_
 # which generated definitions (by name prefix) bear on which property's check
 SERVES = {
     'C01': ('fitGain', 'r2_', 'blk_', 'blockNorm_'), 'C02': ('fitGain', 'r2_', 'blk_', 'blockNorm_', 'applyParams', 'resamplingIsDown'),
-    'C07': ('fitGain', 'r2_', 'blk_', 'blockNorm_', 'applyParams'), 'C14': ('applyParams', 'paramIndex'),
+    'C07': ('fitGain', 'r2_', 'blk_', 'blockNorm_', 'applyParams'), 'C14': ('applyParams', 'paramIndex', 'fitGain', 'r2_'),
     'C04': ('prog', 'fanOut'), 'C09': ('prog', 'outFilesEvents', 'fanOut'), 'C10': ('outFilesEvents',), 'C11': ('cmp_', 'cmpPx_', 'resamplingIsDown'), 'C12': ('stats_',), 'C17': ('cover_',), 'C20': ('bounded_', 'writeSteps', 'read_', 'convert_'), 'C13': ('convert_', 'writeSteps'), 'C08': ('read_',),
-    'C03': ('writeSteps',), 'C05': ('overlapForKernel', 'blocks_', 'resamplingIsDown'),
+    'C03': ('writeSteps',), 'C05': ('overlapForKernel', 'blocks_', 'resamplingIsDown', 'fitGain', 'r2_'),
     'C06': ('blocks_', 'expandWindow_', 'roundBounds_', 'autoBlock_'), 'C16': ('covers_axis',), 'C18': ('resolveAutoIsRef',), 'C19': ('cli_',),
 }
 # theorems outside Props/Cxx.lean audited with a property's proof leg: (module, theorem name prefix) - the source-text tie
@@ -977,8 +977,8 @@ TIE = {
             ('E2EWide', 'wide_valid_iff_nearest'), ('E2EWide', 'wide_mask_eq_nearest'), ('E2EWide', 'whole_image_no_lost_pixels_wide'),
             ('E2EWide', 'block_mask_eq_whole_wide')],
     'C15': [('BandInfo', 'bandInfo_')],
-    'C07': [('SrcTieKernel', 'src_C01_'), ('E2ELine', 'whole_image_scale'), ('E2EWide', 'whole_image_scale_wide')], 'C14': [('SrcTieKernel', 'src_C14_'), ('SrcTieGeom', 'src_C14_')],
-    'C11': [('SrcTieStats', 'src_C11_'), ('E2ECompare', 'compare_'), ('SrcTieKernel', 'src_C02_resampling')], 'C12': [('SrcTieStats', 'src_C12_')], 'C05': [('SrcTieGeom', 'src_C05_'), ('SrcTieGeom', 'src_C06_block'), ('E2E', 'block_transparent'), ('E2E', 'partitions_agree'),
+    'C07': [('SrcTieKernel', 'src_C01_'), ('E2ELine', 'whole_image_scale'), ('E2EWide', 'whole_image_scale_wide')], 'C14': [('SrcTieKernel', 'src_C14_'), ('SrcTieGeom', 'src_C14_'), ('SrcTieKernel', 'src_C01_')],
+    'C11': [('SrcTieStats', 'src_C11_'), ('E2ECompare', 'compare_'), ('SrcTieKernel', 'src_C02_resampling')], 'C12': [('SrcTieStats', 'src_C12_')], 'C05': [('SrcTieGeom', 'src_C05_'), ('SrcTieGeom', 'src_C06_block'), ('SrcTieKernel', 'src_C01_'), ('E2E', 'block_transparent'), ('E2E', 'partitions_agree'),
             ('E2ESrc', 'block_transparent_src_grid'), ('E2ESrc', 'partitions_agree_src_grid'), ('E2ESrc', 'correctedSrcGrid_eq_on'),
             ('E2EWide', 'block_transparent_wide'), ('E2EWide', 'block_mask_eq_whole_wide')],
     'C06': [('SrcTieGeom', 'src_C06_')], 'C16': [('SrcTieGeom', 'src_C16_')], 'C18': [('SrcTieGeom', 'src_C18_')],
